@@ -239,6 +239,43 @@ def main(ck, tier, w):
         if probs:
             ck.violation('; '.join(probs[:4]), {'timestamps': times, 'run': i, 'observed': r.brief(), 'tags': []})
 
+    # T: accumulators after every block validated against Stats.tla's effects (Trace_Stats); quantities below 10^9, heights in
+    # late reward eras so that fees are non-trivial with small values
+    def tjob(i):
+        r0 = random.Random('%d-c15T-%d' % (seed, i))
+        era = r0.choice([24, 25, 26, 30])
+        h0 = 210000 * era - r0.choice([0, 1, 2, 3])
+        rew = (50 * 10 ** 8) >> era
+        blocks, prev = [], b'\0' * 32
+        n = r0.choice([3, 8, 25] if quick else [5, 40, 150])
+        for k in range(n):
+            txs = [btc.coinbase(h0 + k, None, outs=[{'val': r0.choice([rew, rew + 1, rew - 1, rew * 2, 0, rew + 500]), 'spk': spk(r0.choice(list(LABEL)), r0)}] +
+                                [{'val': 3, 'spk': b'\x6a' + btc.push(b'x')}] * r0.randrange(0, 2))]
+            for j in range(r0.randrange(0, 5)):
+                txs.append({'ver': 1, 'ins': [{'txid': r0.randbytes(32), 'idx': 0, 'sig': r0.randbytes(r0.choice([0, 10, 10, 90])), 'seq': 0}] * r0.randrange(1, 4),
+                            'outs': [{'val': r0.choice([0, 7, 500, 500, 999]), 'spk': r0.choice([spk(t, r0) for t in LABEL] + [b'\x51', b'', b'\x00\x14' + r0.randbytes(20)])}
+                                     for _ in range(r0.randrange(0, 4))], 'lock': j})
+            b = datadir.mk_block(prev, txs, t=r0.choice([1000, 5000, 4000, 2 ** 31 - 5, 77, 77]), nonce=k)
+            blocks.append(b)
+            prev = b['hash']
+        d = write_dir(w, blocks, h0)
+        tr = w.sub('trace')
+        r = run.run_parser(d.path, 'simplestats', start=h0, trace=tr, skip='idx_rec,idx_keep,lookup,fetched,deliver,eval')
+        return i, h0, n, r, tr
+    ran = chains.pmap(tjob, range(6 if quick else 40), 8)
+    from lib import tracecheck
+    for (i, h0, n, r, tr), v in zip(ran, tracecheck.validate_many([x[4] for x in ran], module='Trace_Stats', batch=10)):
+        ck.evals()
+        ck.traces()
+        ck.distinct(('T', h0, n))
+        probs = []
+        if r.rc != 0:
+            probs.append('exit %d: %s' % (r.rc, r.stderr[-200:]))
+        if not v['accepted']:
+            probs.append('accumulators diverge from Stats.tla: %s at event %s %s' % (v['reason'], v['rejected_at'], v['event'] or ''))
+        if probs:
+            ck.violation('; '.join(probs), {'first_height': h0, 'blocks': n, 'run': i, 'observed': r.brief(), 'trace_verdict': v, 'tags': []})
+
     # get_mean on u32 lists whose sum exceeds 32 bits (direct witness without multi-GiB inputs)
     lists = [[2 ** 32 - 1] * 3, [2 ** 31, 2 ** 31], [2 ** 32 - 1, 1], [1000000] * 5000, [0], [7]]
     lists += [[rng.randrange(2 ** 32) for _ in range(rng.randrange(1, 40))] for _ in range(200)]
